@@ -319,6 +319,11 @@ func init() {
 		if r.Chance(0.6) {
 			cfg.TruncateDiff = uint64(2 + r.Intn(8))
 		}
+		if cfg.TruncateDiff > 0 && r.Chance(0.5) {
+			// the weight-triggered truncation loop really truncates (and updates its own bookkeeping) during the workload
+			cfg.TruncateDiff = uint64(2 + r.Intn(2))
+			cfg.TruncateAt = 2*cfg.TruncateDiff + uint64(r.Intn(2))
+		}
 		return &Plan{Scenario: "race", Cfg: cfg}
 	}
 	nontrivialRule["C18"] = "one evaluation = one seeded run of a -race build: 2-4 proposer tasks, a gossip-add task (valid, orphan and invalid vertices), 1-3 reader tasks (balance, history, by-hash, notary Balance handler), a DAG stream consumer that sometimes abandons the stream, a truncation task and an orphan-retry task run concurrently against one loaded node while its real retry ticker and truncation loop run; the seed decides the interleaving at every instrumented point; every race report whose access sites lie in the repository is a violation keyed by the unordered pair of sites; distinct = trace hash"
